@@ -579,7 +579,14 @@ fn run_main(args: &[String]) -> i32 {
     let mut w = spawn_worker(&pass);
     let mut skipping = false;
     let (mut ncall, mut ncrash) = (0u64, 0u64);
+    // every hang costs a full watchdog period: after a few of them the verdict is settled, the rest of the script is
+    // skipped (a `note` event says so) instead of spending the same time again on every later session
+    let mut nhang = 0u32;
     for line in ops.lines() {
+        if nhang >= 4 {
+            writeln!(tr, "{}", json!({"e": "note", "what": "hang budget exhausted: the rest of the script was not run"})).ok();
+            break;
+        }
         let line = line.expect("read ops");
         if line.trim().is_empty() {
             continue;
@@ -663,6 +670,7 @@ fn run_main(args: &[String]) -> i32 {
                 w.child.wait().ok();
                 writeln!(tr, "{}", json!({"e": "hang", "p": op.get("p").cloned().unwrap_or(json!("A")),
                     "timeout_ms": timeout_ms, "during": kind})).ok();
+                nhang += 1;
                 ncrash += 1;
                 skipping = true;
                 w = spawn_worker(&pass);
